@@ -1116,6 +1116,8 @@ class CxxEvaluator(Evaluator):
 
     def construct(self, func, this, args):
         """constructor from source: delegating and member initialisers (in declaration order as recorded), then the body"""
+        if isinstance(this, (Obj, Struct)):
+            this.__dict__["_constructed"] = True       # built by the repository's own constructor: every field it has was stored by it
         env = {}
         for p, a in zip(func["params"], args):
             env[p["id"]] = conv(a, p.get("t"))
@@ -1568,6 +1570,10 @@ class CxxEvaluator(Evaluator):
                 if e["n"] == "":
                     return b
                 if not hasattr(b, e["n"]):
+                    if not b.__dict__.get("_constructed"):
+                        # an object a rule put together by hand: a field the rule did not specify is an unspecified value (copying it
+                        # around - an explicit copy constructor - is harmless; deciding on it is an unmodelled case further down)
+                        return Sym.of("unspecified:" + e["n"])
                     raise OutOfBounds("read of the field %s of %s before anything was stored in it" % (e["n"], getattr(b, "_cls", getattr(b, "_t", "?"))))
                 return getattr(b, e["n"])
             # (the base class would evaluate e["b"] a second time: finish here with the value already computed)
